@@ -10,3 +10,8 @@ import UberjobModel.Props.C07
 #print axioms Uberjob.Engine.C07_skeleton
 #print axioms Uberjob.Engine.C07_fine_terminates
 #print axioms Uberjob.Engine.C07_fine_no_deadlock
+#print axioms Uberjob.Engine.C07_q_refines
+#print axioms Uberjob.Engine.C07_sleepers_do_not_act
+#print axioms Uberjob.Engine.C07_no_lost_wakeup
+#print axioms Uberjob.Engine.C07_q_terminates
+#print axioms Uberjob.Engine.C07_q_can_finish
